@@ -13,7 +13,7 @@ LEVEL = 'exploration'
 BUDGET = {'quick': 20, 'thorough': 240}
 STREAM_ORDER = ['ops', 'guards', 'moves', 'mat', 'chart', 'cfg']
 RULE = ('well-formed chart drawn per run whose code sends events (with and without delay); the seeded scheduler interleaves 1-3 logical '
-        'clients calling queue() - an Event instance, a name with keyword parameters, or both in one call - with delays from {none,0,1,2,2,5} (ties on purpose; in a third of the runs also -1 and -4: due since before it was queued), in a third of the runs the clock also moves while guards are evaluated, in a quarter a listener queues further events while it is told about a consumption, the statechart own sends, clock moves (0, exactly to the '
+        'clients calling queue() - an Event instance, a name with keyword parameters, or both in one call - with delays from {none,0,1,2,2,5} (ties on purpose; in a third of the runs also -1 and -4: due since before it was queued), in a third of the runs the clock also moves while guards are evaluated, in a third clients and code also use events without any distinguishing parameter (an external and an internal one of the same name and delay compare equal), in a quarter a listener queues further events while it is told about a consumption, the statechart own sends, clock moves (0, exactly to the '
         'next due time, one tick short of it, far beyond) and execute_once; a two-queue reference model runs in lock-step and the recorded '
         'history is checked at the end after a drain (every uid consumed exactly once, never before its due time); non-trivial = a '
         'consuming step taken while >= 2 events were pending; distinct = distinct (chart, pending-queue snapshot relative to the step time)')
@@ -27,7 +27,7 @@ TECHNIQUE = 'deterministic simulation: seeded interleaving of clients, sends, cl
 
 def run(ch, tier):
     res = Result()
-    cfg = swarm(ch.s('cfg'), Cfg(sends=True, delays=True, eventless=True, neg_delays=ch.s('cfg').flag(1, 3)), tier)
+    cfg = swarm(ch.s('cfg'), Cfg(sends=True, delays=True, eventless=True, neg_delays=ch.s('cfg').flag(1, 3), anon=ch.s('cfg').flag(1, 3)), tier)
     sp = gen_spec(ch.s('chart'), cfg)
     from sim.probes import SimClock
     # the interpreter may be created on a clock that is already running late, and events may be queued
@@ -91,6 +91,16 @@ def run(ch, tier):
             e = r.ms.event
             uid = r.consumed_uid
             info = sim.all_uids.get(r.consumed_key)
+            if uid is None and getattr(e, 'data', None) is not None and 'uid' not in e.data:
+                # an event without identity: all the model knows is which (class, name) was first in line
+                if not r.consumed_head:
+                    return res.fail('wrong-event', 'step at %s consumed %r; the queue discipline prescribes %s %s (due %s)' % (
+                        float(r.T), e, 'internal' if r.head_internal else 'external', head and head[3], head and float(head[0])), **ctx) and r
+                if eventless:
+                    return res.fail('consumed-with-eventless', 'event consumed by a step that fired an eventless transition', **ctx) and r
+                hist.append(('consume', None, e.name, float(r.T)))
+                res.stats['anonymous_events_consumed'] += 1
+                return r
             if info is None:
                 return res.fail('unknown-event', 'step consumed %r which nobody queued' % e, **ctx) and r
             if info['consumed_at'] == 'twice':
@@ -130,7 +140,13 @@ def run(ch, tier):
         return res
     for _ in range(n):
         op = ops.weighted([('step', 5), ('queue', 5), ('advance', 3), ('queue2', 1)])
-        if op == 'queue':
+        if op == 'queue' and cfg.anon and ops.flag(1, 4):
+            d = ops.pick([None, 1, 2])
+            nm_ = ops.pick(names)
+            sim.queue_anon(nm_, d)
+            hist.append(('queue', 'anonymous', nm_, d, float(sim.lastT)))
+            res.stats['anonymous_events_queued'] += 1
+        elif op == 'queue':
             d = ops.pick([None, None, 0, 1, 2, 2, 5] + ([-1, -4] if cfg.neg_delays else []))
             client = ops.choice(3)
             uid = sim.queue(ops.pick(names), d)
